@@ -792,9 +792,59 @@ def errmap_facts(prog: Program, interp: Interp, r: DispatcherRoles) -> Tuple[Dic
     for h in [n for n in cfg.nodes if n.kind == 'handler']:
         body = handler_body_nodes(cfg, h)
         made = _error_ctors(prog, f, body)
-        made_cls = sorted({q for _, _, q in made})
+        made_all = sorted({q for _, _, q in made})
+        hvar = h.ast.name if isinstance(h.ast, ast.ExceptHandler) else None
+        from ..flow import Flow as _FlowE
+        from ..util import guard_edges as _ge
+        fl_e = _FlowE(cfg)
+
+        def holds_for(test: ast.expr, k: str) -> Optional[bool]:
+            """`test` (a boolean combination of isinstance(<caught>, C) tests) for an exception of class k; None = not decided"""
+            if isinstance(test, ast.UnaryOp) and isinstance(test.op, ast.Not):
+                v = holds_for(test.operand, k)
+                return None if v is None else not v
+            if isinstance(test, ast.BoolOp):
+                vs = [holds_for(x, k) for x in test.values]
+                if isinstance(test.op, ast.And):
+                    return False if any(v is False for v in vs) else True if all(v is True for v in vs) else None
+                return True if any(v is True for v in vs) else False if all(v is False for v in vs) else None
+            if isinstance(test, ast.Call) and dotted(test.func) == 'isinstance' and len(test.args) == 2 and hvar and dotted(test.args[0]) == hvar:
+                tps = test.args[1].elts if isinstance(test.args[1], ast.Tuple) else [test.args[1]]
+                res_ = False
+                for t_ in tps:
+                    ent = prog.resolve(f.module, t_)
+                    q_ = prog.exc_name(ent)
+                    if q_ is None:
+                        return None
+                    if prog.exc_subclass(k, q_):
+                        res_ = True
+                return res_
+            return None
+
+        def made_for(k: str) -> List[str]:
+            out_: Set[str] = set()
+            for n_, c_, q_ in made:
+                # the class constructed here, per value of the callee expression, under the conditions that select that value
+                alts = fl_e.alts(n_, c_.func) if isinstance(c_.func, ast.Name) else []
+                conds_n = [(g.src.ast, g.label == 'T') for g in _ge(cfg, n_) if g.src.handler is h or g.src in body]
+                if any(holds_for(t_, k) is (not pol_) for t_, pol_ in conds_n):
+                    continue        # this statement is not reached for an exception of class k
+                if not alts:
+                    out_.add(q_)
+                    continue
+                for al in alts:
+                    ent = prog.resolve(f.module, al.expr)
+                    aq = ent.qualname if isinstance(ent, ClassInfo) else None
+                    if aq is None:
+                        out_.add(q_)
+                        continue
+                    if any(holds_for(t_, k) is (not pol_) for t_, pol_ in (al.guards or [])):
+                        continue
+                    out_.add(aq)
+            return sorted(out_)
         for cls_in in sorted(h.inflow):
             base = cls_in.rstrip('+')
+            made_cls = made_for(base) if hvar else made_all
             if prog.exc_subclass(base, 'json.JSONDecodeError') or base == 'ValueError':
                 want = P
             elif prog.exc_subclass(base, EXC + '.DeserializationError') or prog.exc_subclass(base, EXC + '.IdentityError'):
